@@ -4,7 +4,8 @@ T-gen : Gen/Tables.v regenerated from PandoraMachine._transitions_run/_check; ob
         check_tbl_wf / run_tbl_wf re-proved by vm_compute on every run.
 T-corr: the extracted model (check_conf / run / histories) against the real PandoraMachine:
         exhaustive kind sequences (check phase), random suffixed / malformed sequences,
-        histories of check/run calls with real runs on small images (1-3 scales).
+        histories of check/run calls with real runs on small images (1-3 scales), histories that
+        MIX different pipelines (with / without validation, accepted / refused) on one machine object.
 Spec  : independent Python oracle of the documented language and of the expected trace."""
 import re
 
@@ -17,7 +18,9 @@ EXTRACT_FILES = ["X01"]
 DRIVERS = ["x01"]
 RULE = ("check phase: every kind sequence up to length L (exhaustive) + random suffixed/malformed sequences; "
         "run phase: random histories of check/run calls of accepted pipelines on real images (1-3 scales) and "
-        "unchecked illegal pipelines; a case is non-trivial when its pipeline has >= 2 steps; distinct by "
+        "unchecked illegal pipelines; mixed histories: 2-4 different pipelines checked/run in random order on ONE "
+        "machine object, each outcome compared with the model and with the fresh-machine outcome; "
+        "a case is non-trivial when its pipeline has >= 2 steps; distinct by "
         "(step names, validity pattern, history)")
 ASSUMES = [
     "semantics of the transitions library (trigger / add_transitions / remove_transition) is hand-modelled in "
@@ -152,6 +155,136 @@ def images(rng, rows, cols):
     return L, R
 
 
+def gen_mixed(rng):
+    """2-4 pipelines (mostly accepted; with and without validation; some refused) and a history of
+    (pipeline index, call) on one machine: call 0 = check, n >= 1 = run with n scales"""
+    pls = []
+    for _ in range(rng.randrange(2, 5)):
+        a = [rng.choice(["aggregation", "optimization", "semantic_segmentation", "cost_volume_confidence"])
+             for _ in range(rng.randrange(0, 2))]
+        b = [rng.choice(["filter", "refinement", "validation", "validation", "multiscale"])
+             for _ in range(rng.randrange(0, 4))]
+        kinds = ["matching_cost"] + a + ["disparity"] + b
+        r = rng.random()
+        illegal = False
+        if r < 0.12:      # refused: wrong order
+            kinds = rng.choice([["matching_cost", "filter", "disparity"], ["disparity", "filter"],
+                                ["matching_cost", "disparity", "aggregation"], kinds + ["matching_cost"]])
+            illegal = True
+        names = name_steps(kinds, rng, "rand" if rng.random() < 0.5 else "min")
+        cfgs = [valid_cfg(k, rng, runnable=True) for k in kinds]
+        oks = [True] * len(kinds)
+        if not illegal and rng.random() < 0.1:   # refused: an invalid step (such a pipeline is only checked)
+            i = rng.randrange(len(kinds))
+            cfgs[i] = invalid_cfg(kinds[i], rng)
+            oks[i] = False
+        n = 1
+        for nm, c in zip(names, cfgs):
+            if nm.split(".")[0] == "multiscale":
+                n = c.get("num_scales", 2) if isinstance(c.get("num_scales", 2), int) else 2
+                break
+        pls.append({"names": names, "cfgs": cfgs, "valid": oks, "n": max(n, 1)})
+    hist = []
+    for _ in range(rng.randrange(3, 8)):
+        i = rng.randrange(len(pls))
+        if all(pls[i]["valid"]) and rng.random() < 0.5:
+            hist.append([i, pls[i]["n"]])
+        else:
+            hist.append([i, 0])
+    return pls, hist
+
+
+def call_real(pandora, m, pl, code, metaL, metaR, imgL, imgR, ctx):
+    """one call on the real machine -> [code, summary, trace, right products empty?]"""
+    names = pl["names"]
+    user = {"pipeline": {nm: c for nm, c in zip(names, pl["cfgs"])}}
+    m.trace = []
+    right_empty = None
+    if code == 0:
+        try:
+            m.check_conf(pu.deep_copy_cfg(user), metaL, metaR)
+            out = 0
+            ctx.count("impl_accepted")
+        except Exception as exc:  # pylint: disable=broad-except
+            out = 1
+            ctx.count("impl_rejected_" + pu.exc_class(exc))
+        tr = []
+    else:
+        try:
+            _, right = pandora.run(m, imgL, imgR, pu.deep_copy_cfg(user))
+            right_empty = len(right.data_vars) == 0
+            out = 2
+            ctx.count("impl_ran")
+            ctx.traces += 1
+        except Exception as exc:  # pylint: disable=broad-except
+            out = 3
+            ctx.count("impl_run_error_" + pu.exc_class(exc))
+        tr = [[names.index(nm), pu.kind_code_of_name(nm), sc, 1 if r else 0] for nm, sc, r in m.trace]
+    return [out, real_summary(m), tr], right_empty
+
+
+def run_mixed(ctx, pandora, model, mixed, metaL, metaR, imgL, imgR):
+    """histories mixing different pipelines on ONE machine object"""
+    margs = []
+    for pls, hist in mixed:
+        wire = [[[i, pu.kind_code_of_name(nm), ok, ok] for i, (nm, ok) in enumerate(zip(pl["names"], pl["valid"]))]
+                for pl in pls]
+        margs.append((2, [wire, hist]))
+    mres = model.batch(margs) if margs else []
+    for (pls, hist), mr in zip(mixed, mres):
+        ctx.count("cases_mixed_history")
+        m = pu.spy_machine()
+        impl, rempty = [], []
+        for i, code in hist:
+            o, re_ = call_real(pandora, m, pls[i], code, metaL, metaR, imgL, imgR, ctx)
+            impl.append(o)
+            rempty.append(re_)
+        case = {"mixed": True, "pipelines": pls, "history": hist}
+        ctx.case((tuple(tuple(pl["names"]) for pl in pls), tuple(map(tuple, hist))))
+        ctx.sample({"kind": "mixed-history", "pipelines": [pl["names"] for pl in pls], "history": hist,
+                    "outcome_codes": [o[0] for o in impl]}, limit=12)
+        if impl != mr:
+            ctx.mismatch("machine_mixed_history", case, impl, mr)
+        # spec: as long as the earlier calls returned successfully, a call returns what it returns on a machine
+        # that has never been used (independent oracle: documented language / expected trace)
+        clean = True
+        for pos, ((i, code), o, re_) in enumerate(zip(hist, impl, rempty)):
+            if not clean:
+                break
+            pl = pls[i]
+            names = pl["names"]
+            legal = doc_accepts(names, pl["valid"])
+            has_val = any(nm.split(".")[0] == "validation" for nm in names)
+            if code == 0:
+                ctx.count("mixed_checks_compared_with_fresh")
+                if (o[0] == 0) != legal:
+                    ctx.violation("history_mixed_check",
+                                  f"pipeline {names} is {'accepted' if legal else 'refused'} on a fresh machine but "
+                                  f"{'accepted' if o[0] == 0 else 'refused'} as call {pos} of the "
+                                  f"history {hist} over {[p['names'] for p in pls]} on one machine", case)
+                if o[0] == 0 and (o[1][:2] != [0, 0] or o[1][2] != (1 if has_val else 0)):
+                    ctx.violation("history_mixed_check_state",
+                                  f"after the successful check of {names} in history {hist}: state/transitions/"
+                                  f"right_disp_map = {o[1]} (want [0, 0, {1 if has_val else 0}])", case)
+            elif legal:
+                ctx.count("mixed_runs_compared_with_fresh")
+                want_tr = [[names.index(nm), pu.kind_code_of_name(nm), sc, 1 if r else 0]
+                           for nm, sc, r in expected_trace_py(names, code, has_val)]
+                if o[0] != 2 or o[2] != want_tr or o[1][:2] != [0, 0]:
+                    ctx.violation("history_mixed_run_trace",
+                                  f"accepted pipeline {names} ({code} scale(s)) run after other pipelines on the same "
+                                  f"machine (history {hist} over {[p['names'] for p in pls]}): outcome {o[0]}, trace "
+                                  f"differs from the fresh-machine trace (each step once per scale, in order, left "
+                                  f"then right iff THIS pipeline has a validation step) or machine not restored "
+                                  f"({o[1]})", dict(case, got=o, want_trace=want_tr))
+                elif re_ is not None and re_ != (not has_val):
+                    ctx.violation("history_mixed_right_products",
+                                  f"pipeline {names} run in history {hist}: right dataset "
+                                  f"{'empty' if re_ else 'not empty'} although the pipeline has "
+                                  f"{'a' if has_val else 'no'} validation step", case)
+            clean = o[0] in (0, 2)
+
+
 def run(ctx):
     import pandora
     from pandora.state_machine import PandoraMachine
@@ -251,7 +384,25 @@ def run(ctx):
         cfgs = [valid_cfg(k, rng, runnable=True) for k in kinds]
         cases.append((names, cfgs, [True] * len(kinds), [1, 0, 0][: rng.randrange(1, 4)], "illegal-run"))
 
-    if getattr(ctx, "replay_case", None) is not None:
+    # E. histories mixing DIFFERENT pipelines on one machine object
+    mixed = [gen_mixed(rng) for _ in range(40 if quick else 400)]
+    # two fixed ones: the defect repaired by "a configuration check starts from a clean machine"
+    vcfg = {"validation_method": "cross_checking_accurate", "cross_checking_threshold": 1.0}
+    base = [("matching_cost", {"matching_cost_method": "sad", "window_size": 3, "subpix": 1}),
+            ("disparity", {"disparity_method": "wta", "invalid_disparity": -9999})]
+    plA = {"names": [n for n, _ in base] + ["validation"], "cfgs": [c for _, c in base] + [vcfg],
+           "valid": [True] * 3, "n": 1}
+    plB = {"names": [n for n, _ in base] + ["filter"], "cfgs": [c for _, c in base] + [{"filter_method": "median", "filter_size": 3}],
+           "valid": [True] * 3, "n": 1}
+    mixed.insert(0, ([plA, plB], [[0, 0], [1, 1], [1, 0], [0, 1], [1, 1]]))
+    mixed.insert(1, ([plA, plB], [[0, 1], [1, 0], [1, 1]]))
+
+    if getattr(ctx, "replay_case", None) is not None and ctx.replay_case.get("mixed"):
+        rc = ctx.replay_case
+        cases = []
+        mixed = [(rc["pipelines"], rc["history"])]
+    elif getattr(ctx, "replay_case", None) is not None:
+        mixed = []
         rc = ctx.replay_case
         names = rc["names"]
         cases = [(names, rc["cfgs"], rc.get("valid", [True] * len(names)), rc.get("history", [0]),
@@ -262,7 +413,7 @@ def run(ctx):
     for names, cfgs, oks, hist, _ in cases:
         pl = [[i, pu.kind_code_of_name(nm), ok, ok] for i, (nm, ok) in enumerate(zip(names, oks))]
         margs.append((1, [pl, hist]))
-    mres = model.batch(margs)
+    mres = model.batch(margs) if margs else []
 
     # ---- implementation side
     metaL, metaR = pu.meta_dataset(24, 28, (-2, 2)), pu.meta_dataset(24, 28, None)
@@ -330,5 +481,7 @@ def run(ctx):
                 elif o[0] != 0:
                     ctx.violation("history_check", f"accepted pipeline {names}: a later check in history {hist} was refused",
                                   {"names": names, "cfgs": cfgs, "history": hist})
+    run_mixed(ctx, pandora, model, mixed, metaL, metaR, imgL, imgR)
+    ctx.stats["mixed_histories"] = len(mixed)
     ctx.gen_obligations = ["check_tbl_wf Gen.Tables.check_table = true (vm_compute)",
                            "run_tbl_wf Gen.Tables.run_table = true (vm_compute)"]
